@@ -60,11 +60,25 @@ class LatestScenario(Scenario):
     def check_step(self):
         arr = self._arrivals()
         dl = self._delivered()
-        if len(set(dl)) != len(dl):
-            return Violation("duplicate", "latest", "", dict(arrivals=arr, delivered=dl))
-        pos = [arr.index(x) if x in arr else -1 for x in dl]
-        if any(b <= a for a, b in zip(pos, pos[1:])) or -1 in pos:
-            return Violation("not-subsequence", "latest", "", dict(arrivals=arr, delivered=dl))
+        # delivered is a subsequence of the arrivals (matched left to right; the same value, even the same object,
+        # may arrive more than once), and no arrival is delivered twice
+        start = 0
+        for x in dl:
+            try:
+                i = arr.index(x, start)
+            except ValueError:
+                clause = "duplicate" if x in arr[:start] else "not-subsequence"
+                return Violation(clause, "latest", "", dict(arrivals=arr, delivered=dl))
+            start = i + 1
+        # a delivery cannot precede the arrival it delivers: at most as many deliveries of a value as arrivals so far
+        seen = {}
+        for e in self.log:
+            if e[0] == "emit" and (self.params["nprod"] != 3 or e[1] == "p"):
+                seen[repr(e[3])] = seen.get(repr(e[3]), 0) + 1
+            elif e[0] == "in" and e[1] == "S":
+                seen[repr(e[3])] = seen.get(repr(e[3]), 0) - 1
+                if seen[repr(e[3])] < 0:
+                    return Violation("duplicate", "latest", "", dict(arrivals=arr, delivered=dl))
         return None
 
     def check_final(self):
@@ -75,7 +89,10 @@ class LatestScenario(Scenario):
                 return Violation("not-subsequence", "latest", "second-pipeline", dict(arrivals=arrB, delivered=dlB))
         arr = self._arrivals()
         dl = self._delivered()
-        if arr and (not dl or dl[-1] != arr[-1]):
+        last_emit = max([i for i, e in enumerate(self.log) if e[0] == "emit" and (self.params["nprod"] != 3 or e[1] == "p")], default=-1)
+        last_in = max([i for i, e in enumerate(self.log) if e[0] == "in" and e[1] == "S"], default=-1)
+        if arr and (not dl or dl[-1] != arr[-1] or last_in < last_emit):
+            # (the newest arrival's delivery comes after that arrival: an equal element delivered earlier does not count)
             # was the consumer busy when the newest element arrived?
             busy = False
             opened = 0
@@ -121,6 +138,9 @@ def plan(ctx):
         jobs.append(((kind, "none", 1, 3, (1, 1.0, True)), d))            # equal values in a row
         jobs.append(((kind, "none", 1, 3, (0, None, 0.0)), d))            # None (and falsy values) are elements
         jobs.append(((kind, "map", 1, 4, (None, 1, 1.0, True)), d - 1))
+    for kind in ("future", "native"):
+        jobs.append(((kind, "none", 1, 3, (7, 7, 8)), d))                  # the very same object arriving again
+        jobs.append(((kind, "none", 1, 3, ("tok", "tok", "tok")), d))
     jobs.append((("future", "none", 1, 2, None, 1), 2))                    # arrivals around a long idle period
     jobs.append((("sync", "none", 1, 3, (1, 1.0, None), 1), 2))
     return jobs
